@@ -127,7 +127,7 @@ func buildPool() {
 		if got := base.add(s); got != id {
 			panic(fmt.Sprintf("pool id %d != %d", got, id))
 		}
-		if counter.VerifHash(s) != fnv(s) {
+		if counter.VerifNameHash(s) != fnv(s) {
 			panic("independent FNV-1a differs from the package's hash")
 		}
 	}
@@ -192,8 +192,8 @@ func decode(d []byte, H uint32, p *pool) view {
 				break
 			}
 			n++
-			if off < H+4+4*numHash || uint64(off)+16 > uint64(len(d)) {
-				v.corrupt = "pointer"
+			if off < H+4+4*numHash || off%8 != 0 || uint64(off)+16 > uint64(len(d)) {
+				v.corrupt = "pointer" // out of bounds or (fix a01a83c) not 8-byte aligned
 				break
 			}
 			nl := le32(d, off+8) & 0x00ffffff
@@ -271,7 +271,7 @@ type op struct {
 }
 
 type tstate struct {
-	h         *counter.VerifMapped
+	h         *counter.VerifHandle
 	cell      *vatomic.Uint64
 	cellName  int
 	results   []string
@@ -415,7 +415,7 @@ func randomScen() scen {
 		first := roundUp(H+4+4*numHash, unit)
 		room := pageSize - first // multiple of 32
 		// three fillers of 4096 bytes, then a name that would end exactly at the page end
-		fill := 3 * 4096 // record size of a 4080-byte name
+		fill := 3 * 4096                                         // record size of a 4080-byte name
 		rest := int(room) - fill                                 // bytes left on page 1
 		exact := sc.pl.add(findName("TE", rest-16, -1, nil))     // record size == rest: reaches the page end -> next page
 		fits := sc.pl.add(findName("TF", rest-16-32, -1, nil))   // one unit less: last record that fits
@@ -433,7 +433,7 @@ func randomScen() scen {
 		}
 	case "mixed":
 		names := append(append(append(append([]int{}, hot...), cold...), shorts...), longs...)
-		names = append(names, idHotMid, idTooLong)
+		names = append(names, idHotMid, idTooLong, idEmpty)
 		for i := 0; i < nth; i++ {
 			sc.progs = append(sc.progs, newProg(names, 1+rnd.Intn(4), 2))
 		}
@@ -585,6 +585,31 @@ func dmgCycleScen() scen {
 	return sc
 }
 
+// a bucket head that points into the middle of a record (not 8-byte aligned):
+// entryAt rejects it since fix a01a83c
+func dmgUnalignedScen() scen {
+	sc := dmgCycleScen()
+	sc.kind = "dmg-unaligned"
+	sc.damage = func(path string, H uint32) {
+		d, err := os.ReadFile(path)
+		if err != nil {
+			panic(err)
+		}
+		off := le32(d, H+4+4*hotBucket)
+		f, err := os.OpenFile(path, os.O_RDWR, 0)
+		if err != nil {
+			panic(err)
+		}
+		defer f.Close()
+		var b [4]byte
+		binary.LittleEndian.PutUint32(b[:], off+4)
+		if _, err := f.WriteAt(b[:], int64(H+4+4*hotBucket)); err != nil {
+			panic(err)
+		}
+	}
+	return sc
+}
+
 // exhaustive: every schedule of two tiny same-bucket programs with at most
 // three preemptions, optionally killing one of them at a given step
 type exhState struct {
@@ -664,7 +689,7 @@ func runScen(sc scen) {
 	out.Note(fmt.Sprintf("threads-%d", len(sc.progs)))
 
 	// the file exists from the start (created by a handle that is then dropped)
-	h0, err := counter.VerifOpenMapped(path, sc.meta)
+	h0, err := counter.VerifOpenHandle(path, sc.meta)
 	if err != nil {
 		panic(err)
 	}
@@ -723,7 +748,7 @@ func runScen(sc scen) {
 	}
 
 	open := func(i int) {
-		h, err := counter.VerifOpenMapped(path, sc.meta)
+		h, err := counter.VerifOpenHandle(path, sc.meta)
 		if err != nil {
 			panic(err)
 		}
@@ -1002,6 +1027,7 @@ func main() {
 	runScen(emptyScen())
 	runScen(dmgLimitScen())
 	runScen(dmgCycleScen())
+	runScen(dmgUnalignedScen())
 	nexh := n / 4
 	if thorough {
 		nexh = len(exh.plans)
@@ -1021,7 +1047,7 @@ func main() {
 		}
 		runScen(exhScen(exh.plans[(k*stride+off)%len(exh.plans)]))
 	}
-	for i := 5 + nexh; i < n; i++ {
+	for i := 6 + nexh; i < n; i++ {
 		runScen(randomScen())
 	}
 	out.Close()
